@@ -15,11 +15,11 @@ import (
 
 // stream identifiers of the send language.
 const (
-	ssrcT = 0x7001 // TWCC stream
-	ssrcU = 0x7002 // second TWCC stream (shares the transport-wide counter)
-	ssrcA = 0xA001 // stream without the TWCC extension (RFC 8888 feedback)
-	ssrcB = 0xB001 // second stream without the TWCC extension
-	ssrcX = 0xC001 // never bound, never sent on
+	ssrcT = 0x7001     // TWCC stream
+	ssrcU = 0x7002     // second TWCC stream (shares the transport-wide counter)
+	ssrcA = 0x1A2BA001 // stream without the TWCC extension (RFC 8888 feedback)
+	ssrcB = 0x7711A001 // second stream without the TWCC extension (same low 16 bits as the first: SSRCs are 32-bit numbers)
+	ssrcX = 0xC001     // never bound, never sent on
 	extID = 5
 )
 
